@@ -161,6 +161,11 @@ def copy_through_class(ctx, rid):
 
 def rules(ctx):
     P, R = ctx.prog, ctx.res
+    ctx.rule('R19.6', "no function writes module-level state (memo / registry): results independent of earlier calls", floor=1)
+    from .C14 import no_module_state as _nms
+    _nms(ctx, 'R19.6')
+    from .C14 import derived_fields as _df
+    _df(ctx, 'R19.6')      # ... nor keeps derived state on a model that some mutator forgets (stale memo)
     _resolve_tables(P)
     E = Effects(P, R)
     E.build()
